@@ -38,7 +38,7 @@ func stallLimit() time.Duration {
 			return time.Duration(v * float64(time.Second))
 		}
 	}
-	return 30 * time.Second
+	return 90 * time.Second // real time; generous because a heavily loaded box (load 60 on 16 cores was observed) starves a single scheduler step for tens of seconds
 }
 
 func allStacks() string {
